@@ -193,22 +193,72 @@ HAS = ["_", "x", "y", "z", "w"]
 
 
 def gen(rng, n_ops):
+    """mostly valid calls: a light simulation of what is indexed steers ~70% of the calls to ones that should be
+    accepted (fresh keys, un-added / added devices as appropriate); the rest is drawn blindly and mostly rejected"""
     init = [rng.choice(["0", "0", "3"]), rng.choice(["~", "~", "1", "4"]), rng.choice(["~", "~", "a"]),
             rng.choice(["~", "~", "x"])]
-    ops, n = [], 0
-    def oi():
-        return str(rng.randrange(n))
+    puid = int(init[0])
+    luid = int(init[1]) if init[1] != "~" else puid + 1
+    if init[1] == "~":
+        puid += 1
+    loc = [str(luid), init[2] if init[2] != "~" else "Device%d" % luid, init[3] if init[3] != "~" else "_"]
+    devs, ops = [], []          # devs: [uid, name, ha, added]
+
+    def used(f):
+        return {d[f] for d in devs if d[3]} | {loc[f]}
+
+    def fresh(f, pool):
+        free = [k for k in pool if k not in used(f)]
+        return rng.choice(free) if free else rng.choice(pool)
     for _ in range(n_ops):
+        blind = rng.random() < 0.3
         c = rng.randrange(20)
-        if n == 0 or c < 4:
-            ops.append(["create", rng.choice(["~", "~", "~"] + UIDS), rng.choice(["~", "~"] + NAMES),
-                        rng.choice(["~"] + HAS + HAS)]); n += 1
-        elif c < 9: ops.append(["add", oi()])
-        elif c < 12: ops.append(["move", oi(), rng.choice(UIDS)])
-        elif c < 14: ops.append(["rename", oi(), rng.choice(NAMES)])
-        elif c < 16: ops.append(["reha", oi(), rng.choice(HAS)])
-        elif c < 19: ops.append(["remove", oi()])
-        else: ops.append(["removeall"])
+        if not devs or c < 4:
+            if blind:
+                u, n, h = rng.choice(["~"] + UIDS), rng.choice(["~", "~"] + NAMES), rng.choice(["~"] + HAS)
+            else:
+                u = rng.choice(["~", "~", fresh(0, UIDS)])
+                n = rng.choice(["~", fresh(1, NAMES)])
+                h = fresh(2, HAS[1:] + ["v", "u", "t"])
+            if u == "~":
+                puid += 1
+                while str(puid) in used(0):
+                    puid += 1
+                uid = str(puid)
+            else:
+                uid = u
+            devs.append([uid, n if n != "~" else "Device" + uid, h if h != "~" else "_", False])
+            ops.append(["create", u, n, h])
+            continue
+        added = [i for i, d in enumerate(devs) if d[3]]
+        idle = [i for i, d in enumerate(devs) if not d[3]]
+        any_ = lambda: rng.randrange(len(devs))
+        if c < 9:
+            i = any_() if blind or not idle else rng.choice(idle)
+            d = devs[i]
+            if not d[3] and all(d[f] not in used(f) for f in range(3)):
+                d[3] = True
+            ops.append(["add", str(i)])
+        elif c < 16:
+            f = 0 if c < 12 else 1 if c < 14 else 2
+            pool = [UIDS, NAMES, HAS + ["v", "u"]][f]
+            i = any_() if blind or not added else rng.choice(added)
+            new = rng.choice(pool) if blind else fresh(f, pool)
+            d = devs[i]
+            if new != d[f]:
+                owner = [j for j, e in enumerate(devs) if e[3] and e[f] == d[f]]
+                if new not in used(f) and owner == [i]:
+                    d[f] = new
+            ops.append([["move", "rename", "reha"][f], str(i), new])
+        elif c < 19:
+            i = any_() if blind or not added else rng.choice(added)
+            if devs[i][3]:
+                devs[i][3] = False
+            ops.append(["remove", str(i)])
+        else:
+            for d in devs:
+                d[3] = False
+            ops.append(["removeall"])
     return {"init": init, "ops": ops}
 
 
@@ -222,7 +272,7 @@ class CHECK(core.Check):
     RULE = ("sequences of 1..40 calls (create / add / move / rename / reha / remove / removeall) on up to ~10 RemoteDevice "
             "objects over uids 1..6, six names (incl. default-name look-alikes), five host addresses (incl. the empty default "
             "that the local device has), stacks with given or defaulted local uid/name/ha and puid 0 or 3; bounded-exhaustive: "
-            "every sequence of <=3 (quick) / <=4 (thorough) calls from a reduced alphabet on two devices. non-trivial = at "
+            "every sequence of <=2 (quick) / <=4 (thorough) calls from an 18-call alphabet after a 5-call prefix (two indexed remotes, one not added). non-trivial = at "
             "least two remotes were in the indexes at once, a move/rename/reha was accepted and some call was rejected; "
             "distinct by init + op list")
     TRUSTED = ["correspondence: a real stacking.RemoteStack (handler None) and devicing.RemoteDevice objects are driven in-process by "
@@ -233,22 +283,43 @@ class CHECK(core.Check):
                "ValueError and NameError (removeRemote's 'not identical' message) both count as 'rejected'"]
     PARTIAL = ["devices changed behind the stack's back (remote.name = ..., local device fields changed later, one device "
                "in two stacks) are outside the histories considered",
-               "which calls must be ACCEPTED is fixed by the model (tied to the code by the correspondence), the property "
-               "only constrains the result; names/host addresses are opaque tokens (IP normalisation of IpDevice not modelled)"]
+               "which calls must be accepted is proved on the model (C37_accepted_iff) and tied to the code by the "
+               "correspondence; the Python oracle only constrains the result of a call; names/host addresses are opaque tokens (IP normalisation of IpDevice not modelled)"]
     TECHNIQUE = "Lean 4 theorems (state invariant by induction over call histories) + differential correspondence"
-    LEVEL_TEXT = ""
-    LEVEL_NOTE = ""
+    LEVEL_TEXT = ("Full proofs on the model (no _partial theorem): the consistency invariant (the three indexes hold the same remote "
+                  "objects in the same order, each under its current uid/name/ha, no remote twice, no duplicate key, no key equal to the "
+                  "local device's) holds for a new stack and is kept by every call with any arguments, hence after every history "
+                  "(C37_init_consistent, C37_step_keeps_consistent, C37_remote_indexes_consistent); on a consistent stack no call ends "
+                  "in an exception other than the rejection and removeRemote never stops between its three deletions "
+                  "(C37_never_crashes); a rejected call changes neither the indexes nor any device nor the uid counter "
+                  "(C37_rejected_unchanged); an accepted move/rename/reha replaces the entry in place - same object, same position, "
+                  "new key - and leaves the other two indexes and all other devices alone (C37_move_rename_keep_position); an "
+                  "accepted add appends to all three, an accepted remove takes out exactly that remote, removeAll empties them "
+                  "(C37_add_remove_effect); nothing is rejected without need: add is accepted exactly when all three keys are free, "
+                  "remove exactly when that object is indexed, a move exactly when the uid is free and the object indexed "
+                  "(C37_accepted_iff); an auto-assigned uid is larger than all earlier ones and not in use (C37_create_uid_fresh). "
+                  "No defect of the unchanged tree violates C37 (removeRemote's 'not identical' branch raises NameError instead of "
+                  "ValueError; still a rejection that changes nothing).")
+    LEVEL_NOTE = ("Trusted: Lean kernel; axioms propext, Classical.choice, Quot.sound; the hand transcription of the seven methods "
+                  "(Model/Remotes.lean) with the indexes modelled as the ordered dictionaries that C39 shows odicts to be, validated only "
+                  "by the correspondence runs (random histories up to 40 calls + all sequences of <= 2 (quick) / <= 4 (thorough) calls "
+                  "from an 18-call alphabet on a prepared stack); identity of Python objects = creation index; names/addresses opaque "
+                  "tokens; devices are changed only through the stack's methods.")
 
     def generate(self, rng, n, tier):
         for _ in range(n):
             yield gen(rng, rng.choice([1, 3, 6, 10, 15, 25, 40]))
 
     def exhaustive(self, tier):
-        depth = 4 if tier == "thorough" else 3
-        pre = [["create", "~", "~", "x"], ["create", "2", "b", "y"], ["create", "~", "Device2", "_"]]
-        alpha = [["add", "0"], ["add", "1"], ["add", "2"], ["move", "0", "3"], ["move", "1", "1"], ["move", "0", "2"],
-                 ["rename", "0", "b"], ["rename", "1", "Device1"], ["rename", "1", "c"], ["reha", "0", "y"], ["reha", "1", "_"],
-                 ["reha", "1", "z"], ["remove", "0"], ["remove", "1"], ["removeall"], ["create", "~", "~", "w"]]
+        depth = 4 if tier == "thorough" else 2
+        # two indexed remotes (objects 0, 1), one created but not added (2); the alphabet has every kind of collision
+        # (with another remote, with the local device uid 1 / name Device1 / ha ''), valid calls and calls on the
+        # un-added object, so that two- and three-call sequences reach re-adds after removal, moves onto freed keys ...
+        pre = [["create", "~", "~", "x"], ["create", "3", "b", "y"], ["create", "~", "c", "z"], ["add", "0"], ["add", "1"]]
+        alpha = [["add", "2"], ["add", "0"], ["move", "0", "3"], ["move", "0", "5"], ["move", "1", "1"], ["move", "2", "2"],
+                 ["rename", "0", "b"], ["rename", "1", "Device1"], ["rename", "0", "q"], ["reha", "0", "y"], ["reha", "1", "_"],
+                 ["reha", "0", "w"], ["remove", "0"], ["remove", "1"], ["remove", "2"], ["removeall"],
+                 ["create", "~", "~", "w"], ["add", "3"]]
         for d in range(1, depth + 1):
             for seq in itertools.product(alpha, repeat=d):
                 yield {"init": ["0", "~", "~", "~"], "ops": pre + [list(x) for x in seq]}
